@@ -192,6 +192,7 @@ def _smoke(qualname, status):
 
 def discharge(eng, rep, opts):
     timeout = opts.get("timeout_ms", 10000)
+    failures = 0
     for ob in eng.obligations:
         if ob.kind == "smoke":
             st = ob.smoke_status
@@ -207,6 +208,9 @@ def discharge(eng, rep, opts):
         # dominates on these VCs (measured: 0.03 s vs unknown, in both directions); only `unsat` discharges
         stages = [("z3-mbqi", {}, 1500), ("z3-ematch", smt.EMATCH, 6000), ("z3-mbqi", {}, 6000),
                   ("cvc5", None, 15000), ("z3-ematch", smt.EMATCH, timeout)]
+        if failures >= opts.get("full_effort_failures", 2):
+            # the function already fails: the remaining obligations get the two cheap stages only
+            stages = stages[:2]
         r = None
         secs = 0.0
         backend = "z3"
@@ -229,4 +233,5 @@ def discharge(eng, rep, opts):
                  line=ob.lineno)
         if r.status != "unsat":
             d["reason"] = r.reason
+            failures += 1
         rep.obligations.append(d)
